@@ -145,8 +145,14 @@ func (s Seg) Classify() (k Kind, binds []string, capture int) {
 				return KMatchAll, []string{p[0].Name}, 0
 			case len(p) == 2 && p[1].Name == "capture" && !p[1].IsRegex:
 				n, err := strconv.Atoi(p[1].Value)
-				if err != nil || n < 0 {
+				if err != nil {
 					return KUnclassified, nil, 0
+				}
+				if n < 0 {
+					// "non-positive means unlimited" (comment on the capture field in
+					// internal/route/leaf.go); whether such a route must be accepted is
+					// left open by the registration model (OddCapture)
+					n = 0
 				}
 				return KMatchAll, []string{p[0].Name}, n
 			default:
@@ -306,6 +312,22 @@ func (s *MSeg) admit(seg string, vals map[string]string) bool {
 			}
 		}
 		return true
+	}
+	return false
+}
+
+// OddCapture reports whether the route spells a capture limit that is not a
+// positive number (0, negative): the documentation of routes only shows
+// positive limits.
+func (r Route) OddCapture() bool {
+	for _, s := range r.Segs {
+		for _, e := range s.Elems {
+			if len(e.Params) == 2 && e.Params[1].Name == "capture" && !e.Params[1].IsRegex {
+				if n, err := strconv.Atoi(e.Params[1].Value); err == nil && n <= 0 {
+					return true
+				}
+			}
+		}
 	}
 	return false
 }
